@@ -79,15 +79,15 @@ Proof.
 Qed.
 
 (* one of the object lists of a block *)
-Lemma list_scan : forall e f nm T l m0,
+Lemma list_scan : forall e f nm T l m0 fi,
   (e <= FUEL)%nat -> (e <= m0)%nat ->
   elt_ok sch e f nm T = true -> nm <> "" ->
   assoc_str scan_kinds (lower_ascii nm) = Some T ->
   wf sch e (f_type f) (VList l) = true ->
-  exists es, marshal sch m0 (f_type f) (VList l) None None = Ok es
+  exists es, marshal sch m0 (f_type f) (VList l) fi None = Ok es
              /\ scan_seq es = (list_objs T (VList l), None).
 Proof.
-  intros e f nm T l m0 He Hm0 Hs Hne Hkind Hwf. unfold elt_ok in Hs. do 4 (apply andb_true_iff in Hs; destruct Hs as [Hs ?]).
+  intros e f nm T l m0 fi He Hm0 Hs Hne Hkind Hwf. unfold elt_ok in Hs. do 4 (apply andb_true_iff in Hs; destruct Hs as [Hs ?]).
   destruct (rk sch (f_type f)) as [| | | | |t0|t1| |] eqn:Hk; try discriminate.
   match goal with E : gotype_eqb t1 _ = true |- _ => apply gotype_eqb_eq in E; subst t1 end.
   assert (Huh : unmarshal_hook sch (f_type f) = None) by (destruct (unmarshal_hook sch (f_type f)); [discriminate | reflexivity]).
@@ -97,7 +97,7 @@ Proof.
   pose proof (Habs (S (S FUEL)) (VList []) ltac:(lia) Hz) as Ha.
   destruct (absorb_slice_inv _ _ _ _ _ _ Hk Huh Ha) as [ys [Hys Hf2]]. cbn [app] in Hys. subst ys.
   exists es. split.
-  - rewrite (forced_eq sch e (f_type f) _ nm Hwf ltac:(assumption) m0 None Hm0). apply Hm. exact Hm0.
+  - rewrite (forced_eq sch e (f_type f) _ nm Hwf ltac:(assumption) m0 fi Hm0). apply Hm. exact Hm0.
   - clear Ha Hm Habs Hwf. cbn [list_objs]. revert Hnames. induction Hf2 as [|ex y es' l' Hxy Hrest IH]; intros Hnames; [reflexivity|].
     apply Forall_cons_iff in Hnames. destruct Hnames as [Hn1 Hn2].
     destruct (ptr_elem_decode T ex y Hxy) as [x [-> Hd]]. destruct ex as [n a k t]. cbn [xname] in Hn1. subst n.
@@ -204,7 +204,7 @@ Proof.
     destruct (bounds_scan e f6 v6 m0 He Hm0 ltac:(assumption) W) as [esb [Hmb Hsb]] end.
   repeat match goal with E : elt_ok sch e ?f ?nm ?T = true, W : wf sch e (f_type ?f) (VList ?l) = true |- _ =>
     let es := fresh "es" in let Hm := fresh "Hml" in let Hs := fresh "Hsl" in
-    destruct (list_scan e f nm T l m0 He Hm0 E ltac:(discriminate) eq_refl W) as [es [Hm Hs]]; clear W end.
+    destruct (list_scan e f nm T l m0 None He Hm0 E ltac:(discriminate) eq_refl W) as [es [Hm Hs]]; clear W end.
   eexists. split.
   - unfold osm_inner, encode_field, fld. rewrite Hfs. cbn [fget_go]. names_goal.
     cbn [String.eqb Ascii.eqb Bool.eqb andb rbind fst snd].
@@ -362,6 +362,232 @@ Proof.
   assert (H16 : (S (S (S 13)) <= FUEL)%nat) by (unfold FUEL; repeat constructor).
   destruct (scanner_change_k 13 dC dO v H16 HlC HsC HlO HtO HsO HscO Hwf) as [ex [He Hs]].
   exists ex. split; [|exact Hs]. unfold encode1, encode. change FUEL with (S (S (S 13))). rewrite He. reflexivity.
+Qed.
+
+(* ---------- Diff ---------- *)
+Definition elem_objs (dO : typedef) (p : value) : list obj :=
+  match p with
+  | VPtr (Some ov) => list_objs "Node" (fval dO ov "Nodes") ++ list_objs "Way" (fval dO ov "Ways")
+                      ++ list_objs "Relation" (fval dO ov "Relations")
+  | _ => []
+  end.
+
+Definition act_objs (dA dO : typedef) (a : value) : list obj :=
+  elem_objs dO (fval dA a "OSM") ++ blk_objs dO (fval dA a "Old") ++ blk_objs dO (fval dA a "New").
+
+Definition diff_objects (dD dA dO : typedef) (v : value) : list obj :=
+  match fval dD v "Actions" with VList la => flat_map (act_objs dA dO) la | _ => [] end
+  ++ list_objs "Changeset" (fval dD v "Changesets").
+
+Lemma not_kind_old : assoc_str scan_kinds (lower_ascii "old") = None. Proof. reflexivity. Qed.
+Lemma not_kind_new : assoc_str scan_kinds (lower_ascii "new") = None. Proof. reflexivity. Qed.
+Lemma not_kind_action : assoc_str scan_kinds (lower_ascii "action") = None. Proof. reflexivity. Qed.
+
+Lemma elements_scan : forall e dO ovs m0,
+  (e <= FUEL)%nat -> (e <= m0)%nat ->
+  osm_static sch e dO = true -> scan_static sch e dO = true ->
+  fields_all (wf sch e) (zero_like sch e) (struct_fields dO) ovs = true ->
+  exists els, osm_inner_elements (marshal sch m0) dO (VStruct ovs) = Ok els
+              /\ scan_seq sch els = (elem_objs dO (VPtr (Some (VStruct ovs))), None).
+Proof.
+  intros e d vs m0 He Hm0 Hst Hsc Hwf. unfold osm_static in Hst.
+  apply andb_true_iff in Hst. destruct Hst as [Hst Hshape]. unfold scan_static in Hsc.
+  destruct (struct_fields d) as [|f1 [|f2 [|f3 [|f4 [|f5 [|f6 [|f7 [|f8 [|f9 [|f10 [|f11 [|f12 [|f13 fs]]]]]]]]]]]]] eqn:Hfs;
+    try discriminate.
+  destruct vs as [|v1 [|v2 [|v3 [|v4 [|v5 [|v6 [|v7 [|v8 [|v9 [|v10 [|v11 [|v12 [|v13 vs]]]]]]]]]]]]];
+    try (cbn [fields_all] in Hwf; repeat (apply andb_true_iff in Hwf; destruct Hwf as [? Hwf]); discriminate).
+  do 11 (apply andb_true_iff in Hshape; destruct Hshape as [Hshape ?]).
+  repeat match goal with H : hdr_ok sch ?f ?a ?b = true |- _ =>
+    apply hdr_ok_inv in H;
+    let a := fresh "Hn" in let b := fresh "Ha" in let c := fresh "Hs" in let e0 := fresh "Ho" in
+    let g := fresh "Hen" in let h := fresh "Hk" in destruct H as (a & b & c & e0 & g & h) end.
+  repeat match goal with H : el_ok sch _ ?f ?a = true |- _ =>
+    apply el_ok_inv in H;
+    let a := fresh "Hn" in let b := fresh "Hel" in let c := fresh "Hp" in let e0 := fresh "Hf" in
+    destruct H as (a & b & c & e0) end.
+  do 6 (apply andb_true_iff in Hsc; destruct Hsc as [Hsc ?]).
+  cbn [fields_all] in Hwf. repeat (apply andb_true_iff in Hwf; destruct Hwf as [? Hwf]).
+  repeat match goal with H : is_elem ?f = true |- _ =>
+    match goal with
+    | K : is_attr f = false |- _ => fail 1
+    | _ => destruct (elem_not_attr f H)
+    end end.
+  repeat match goal with K : x_skip (f_xml ?f) = false, H : (if x_skip (f_xml ?f) then _ else _) = true |- _ => apply (if_false_hyp _ _ _ K) in H end.
+  repeat match goal with E : elt_ok sch e ?f _ _ = true, W : wf sch e (f_type ?f) ?v = true |- _ =>
+    match v with
+    | VList _ => fail 1
+    | _ => let l := fresh "l" in destruct (elt_list_shape sch _ _ _ _ _ E W) as [l ->]
+    end end.
+  match goal with E : elt_ok sch e f7 ?nm ?T = true, W : wf sch e (f_type f7) (VList ?l) = true |- _ =>
+    destruct (list_scan sch e f7 nm T l m0 None He Hm0 E ltac:(discriminate) eq_refl W) as [esn [Hmn Hsn]] end.
+  match goal with E : elt_ok sch e f8 ?nm ?T = true, W : wf sch e (f_type f8) (VList ?l) = true |- _ =>
+    destruct (list_scan sch e f8 nm T l m0 None He Hm0 E ltac:(discriminate) eq_refl W) as [esw [Hmw Hsw]] end.
+  match goal with E : elt_ok sch e f9 ?nm ?T = true, W : wf sch e (f_type f9) (VList ?l) = true |- _ =>
+    destruct (list_scan sch e f9 nm T l m0 None He Hm0 E ltac:(discriminate) eq_refl W) as [esr [Hmr Hsr]] end.
+  eexists. split.
+  - unfold osm_inner_elements, encode_field, fld. rewrite Hfs. cbn [fget_go]. names_goal.
+    cbn [String.eqb Ascii.eqb Bool.eqb andb rbind fst snd].
+    rewrite Hmn. cbn [rbind]. rewrite Hmw. cbn [rbind]. rewrite Hmr. cbn [rbind]. reflexivity.
+  - unfold elem_objs, fval. rewrite Hfs. cbn [fget_go]. names_goal. cbn [String.eqb Ascii.eqb Bool.eqb andb].
+    eapply scan_seq_app; [exact Hsn|]. eapply scan_seq_app; [exact Hsw | exact Hsr].
+Qed.
+
+Lemma action_scan : forall e dO dA a fi tmpl,
+  (S (S (S e)) <= FUEL)%nat ->
+  lookup_type sch "OSM" = Some dO -> osm_top_static sch dO = true -> osm_static sch e dO = true ->
+  elems_static sch e dO = true -> scan_static sch e dO = true ->
+  lookup_type sch "Action" = Some dA -> action_static sch dA = true ->
+  given_name fi tmpl = "action" ->
+  wf sch (S (S (S e))) (TNamed "Action") a = true ->
+  exists ex, marshal sch (S (S (S e))) (TNamed "Action") a fi tmpl = Ok [ex]
+             /\ scan_el sch ex = (act_objs dA dO a, None).
+Proof.
+  intros e dO dA a fi tmpl He HlO HtO HsO HelO HscO HlA HsA Hgn Hwf.
+  destruct (action_rt sch e dO He HlO HtO HsO HelO dA HlA HsA a "action" ltac:(discriminate) Hwf) as [e0 [Hm0 _]].
+  specialize (Hm0 fi tmpl Hgn).
+  pose proof HsA as Hst. unfold action_static in Hst.
+  apply andb_true_iff in Hst. destruct Hst as [Hst Hshape].
+  do 3 (apply andb_true_iff in Hst; destruct Hst as [Hst ?]).
+  match goal with E : String.eqb (t_name dA) "Action" = true |- _ => apply String.eqb_eq in E; rename E into Hname end.
+  assert (Hnd : named_def sch (TNamed "Action") = Some dA) by exact HlA.
+  pose proof (named_def_rk sch _ dA Hnd Hst) as Hk.
+  assert (Hmh : marshal_hook sch (TNamed "Action") = Some dA).
+  { destruct (marshal_hook sch (TNamed "Action")) as [d0|] eqn:E; [|discriminate].
+    pose proof (marshal_hook_def sch _ _ E). congruence. }
+  destruct (wf_struct_inv sch _ _ dA a Hwf Hk) as [vs [-> [Hwfs _]]].
+  destruct (struct_fields dA) as [|fT [|fO [|fOld [|fNew [|f5 fs]]]]] eqn:Hfs; try discriminate.
+  do 11 (apply andb_true_iff in Hshape; destruct Hshape as [Hshape ?]).
+  repeat match goal with E : String.eqb (f_name _) _ = true |- _ => apply String.eqb_eq in E end.
+  repeat match goal with E : gotype_eqb _ _ = true |- _ => apply gotype_eqb_eq in E end.
+  repeat match goal with E : negb (x_skip _) = true |- _ => apply negb_true_iff in E end.
+  destruct vs as [|vT [|vO [|vOld [|vNew [|v5 vs]]]]];
+    try (cbn [fields_all] in Hwfs; repeat (apply andb_true_iff in Hwfs; destruct Hwfs as [? Hwfs]); discriminate).
+  cbn [fields_all] in Hwfs. repeat (apply andb_true_iff in Hwfs; destruct Hwfs as [? Hwfs]).
+  repeat match goal with K : x_skip (f_xml ?f) = false, H : (if x_skip (f_xml ?f) then _ else _) = true |- _ => apply (if_false_hyp _ _ _ K) in H end.
+  repeat match goal with E : f_type ?f = TPtr (TNamed "OSM"), W : wf sch (S (S e)) (f_type ?f) _ = true |- _ => rewrite E in W end.
+  destruct (osm_top_inv sch dO HlO HtO) as (HkO & _).
+  assert (He2 : (S (S e) <= FUEL)%nat) by lia.
+  match goal with W : wf sch (S (S e)) (TPtr (TNamed "OSM")) vOld = true |- _ =>
+    destruct (block_scan e dO "old" vOld He2 HlO HtO HsO HscO not_kind_old W) as [esOld [HmOld HsOld]] end.
+  match goal with W : wf sch (S (S e)) (TPtr (TNamed "OSM")) vNew = true |- _ =>
+    destruct (block_scan e dO "new" vNew He2 HlO HtO HsO HscO not_kind_new W) as [esNew [HmNew HsNew]] end.
+  assert (Hels : exists els,
+            match vO with
+            | VPtr None => Ok []
+            | VPtr (Some ov) => osm_inner_elements (marshal sch (S (S e))) dO ov
+            | _ => Err EShape
+            end = Ok els /\ scan_seq sch els = (elem_objs dO vO, None)).
+  { match goal with W : wf sch (S (S e)) (TPtr (TNamed "OSM")) vO = true |- _ => rename W into HwO end.
+    assert (Hkp : rk sch (TPtr (TNamed "OSM")) = RPtr (TNamed "OSM")) by reflexivity.
+    cbn [wf] in HwO. rewrite Hkp in HwO. destruct vO as [| | | | |[ov|]| | |]; try discriminate.
+    - destruct (wf_struct_inv sch e _ dO ov HwO HkO) as [ovs [-> [Hwo _]]].
+      exact (elements_scan e dO ovs (S (S e)) ltac:(lia) ltac:(lia) HsO HscO Hwo).
+    - exists []. split; reflexivity. }
+  destruct Hels as [els [Hmels Hsels]].
+  rewrite marshal_S in Hm0 |- *.
+  rewrite (ms_hook sch _ (TNamed "Action") dA _ fi tmpl) in Hm0 |- *;
+    try (rewrite Hk; reflexivity); try (cbn [is_empty]; apply andb_false_r); try exact Hmh.
+  unfold hook_marshal in Hm0 |- *. rewrite Hname in Hm0 |- *. cbn [String.eqb Ascii.eqb Bool.eqb] in Hm0 |- *.
+  unfold action_marshal, fld in Hm0 |- *. rewrite Hfs in Hm0 |- *. cbn [fget_go] in Hm0 |- *.
+  names_in Hm0. names_goal. cbn [String.eqb Ascii.eqb Bool.eqb andb rbind fst snd] in Hm0 |- *.
+  destruct vT as [| | |t| | | | |]; try discriminate Hm0. clear Hm0.
+  rewrite HlO. rewrite Hmels. cbn [rbind]. unfold inner_change_field, fld. rewrite Hfs. cbn [fget_go]. names_goal.
+  cbn [String.eqb Ascii.eqb Bool.eqb andb rbind fst snd]. rewrite HmOld. cbn [rbind]. rewrite HmNew. cbn [rbind].
+  eexists. split; [reflexivity|].
+  rewrite (default_start_given sch _ fi tmpl ltac:(rewrite Hgn; discriminate)). rewrite Hgn.
+  rewrite (scan_el_container sch _ _ _ _ not_kind_action).
+  unfold act_objs, fval. rewrite Hfs. cbn [fget_go]. names_goal. cbn [String.eqb Ascii.eqb Bool.eqb andb].
+  eapply scan_seq_app; [exact Hsels|]. eapply scan_seq_app; [exact HsOld | exact HsNew].
+Qed.
+
+Definition diff_scan_static (e : nat) (dD : typedef) : bool :=
+  match struct_fields dD with
+  | [fA; fC] => String.eqb (f_name fA) "Actions" && String.eqb (f_name fC) "Changesets"
+                && elt_ok sch (S (S (S (S e)))) fC "changeset" "Changeset"
+  | _ => false
+  end.
+
+Lemma scanner_diff_k : forall e dD dA dO v,
+  (S (S (S (S (S e)))) <= FUEL)%nat ->
+  lookup_type sch "OSM" = Some dO -> osm_top_static sch dO = true -> osm_static sch e dO = true ->
+  elems_static sch e dO = true -> scan_static sch e dO = true ->
+  lookup_type sch "Action" = Some dA -> action_static sch dA = true ->
+  lookup_type sch "Diff" = Some dD -> diff_static sch e dD = true -> diff_scan_static e dD = true ->
+  wf sch (S (S (S (S (S e))))) (TNamed "Diff") v = true ->
+  exists ex, marshal sch (S (S (S (S (S e))))) (TNamed "Diff") v None None = Ok [ex]
+             /\ scan_el sch ex = (diff_objects dD dA dO v, None).
+Proof.
+  intros e dD dA dO v Hfu HlO HtO HsO HelO HscO HlA HsA HlD Hst Hdsc Hwf. unfold diff_static in Hst.
+  apply andb_true_iff in Hst. destruct Hst as [Hst Hshape].
+  do 8 (apply andb_true_iff in Hst; destruct Hst as [Hst ?]).
+  match goal with E : String.eqb (xmlname_tag dD) "osm" = true |- _ => apply String.eqb_eq in E; rename E into Hxn end.
+  assert (Hnd : named_def sch (TNamed "Diff") = Some dD) by exact HlD.
+  pose proof (named_def_rk sch _ dD Hnd Hst) as Hk.
+  assert (Hmh : marshal_hook sch (TNamed "Diff") = None) by (destruct (marshal_hook sch (TNamed "Diff")); [discriminate | reflexivity]).
+  destruct (wf_struct_inv sch _ _ dD v Hwf Hk) as [vs [-> [Hwfs _]]].
+  unfold diff_scan_static in Hdsc.
+  destruct (struct_fields dD) as [|fA [|fC [|f3 fs]]] eqn:Hfs; try discriminate.
+  do 10 (apply andb_true_iff in Hshape; destruct Hshape as [Hshape ?]).
+  do 2 (apply andb_true_iff in Hdsc; destruct Hdsc as [Hdsc ?]).
+  apply String.eqb_eq in Hdsc. match goal with E : String.eqb (f_name fC) _ = true |- _ => apply String.eqb_eq in E end.
+  destruct (x_parents (f_xml fA)) eqn:HpA; try discriminate. destruct (x_parents (f_xml fC)) eqn:HpC; try discriminate.
+  destruct (rk sch (f_type fA)) as [| | | | |t0|tA| |] eqn:HkA; try discriminate.
+  match goal with E : gotype_eqb tA _ = true |- _ => apply gotype_eqb_eq in E; subst tA end.
+  assert (HmhA : marshal_hook sch (f_type fA) = None) by (destruct (marshal_hook sch (f_type fA)); [discriminate | reflexivity]).
+  match goal with E : String.eqb (eff_name sch fA) "action" = true |- _ => apply String.eqb_eq in E; rename E into HnA end.
+  match goal with E : negb (x_omitempty (f_xml fA)) = true |- _ => apply negb_true_iff in E; rename E into HoA end.
+  rename Hshape into HeA. match goal with E : is_elem fC = true |- _ => rename E into HeC end.
+  destruct (elem_not_attr fA HeA) as [HaA HsA']. destruct (elem_not_attr fC HeC) as [HaC HsC].
+  destruct vs as [|vA [|vC [|v3 vs]]];
+    try (cbn [fields_all] in Hwfs; repeat (apply andb_true_iff in Hwfs; destruct Hwfs as [? Hwfs]); discriminate).
+  cbn [fields_all] in Hwfs. repeat (apply andb_true_iff in Hwfs; destruct Hwfs as [? Hwfs]).
+  repeat match goal with K : x_skip (f_xml ?f) = false, H : (if x_skip (f_xml ?f) then _ else _) = true |- _ => apply (if_false_hyp _ _ _ K) in H end.
+  match goal with W : wf sch _ (f_type fA) vA = true |- _ => rename W into HwA end.
+  match goal with W : wf sch _ (f_type fC) vC = true |- _ => rename W into HwC end.
+  match goal with E : elt_ok sch _ fC _ _ = true |- _ => rename E into HelC end.
+  cbn [wf] in HwA. rewrite HkA in HwA. destruct vA as [| | | | | |la| |]; try discriminate.
+  assert (He3 : (S (S (S e)) <= FUEL)%nat) by lia.
+  assert (Hact : exists esA, rconcat (fun x => marshal sch (S (S (S e))) (TNamed "Action") x (Some ("action", false)) None) la = Ok esA
+                   /\ scan_seq sch esA = (flat_map (act_objs dA dO) la, None)).
+  { clear HwC Hwf. induction la as [|x r IH].
+    - exists []. split; reflexivity.
+    - cbn [forallb] in HwA. apply andb_true_iff in HwA. destruct HwA as [Hx Hr]. apply andb_true_iff in Hx. destruct Hx as [Hwx _].
+      destruct (IH Hr) as [es [Hm Hs]].
+      destruct (action_scan e dO dA x (Some ("action", false)) None He3 HlO HtO HsO HelO HscO HlA HsA eq_refl Hwx) as [ex [Hmx Hsx]].
+      exists ([ex] ++ es). split; [apply rconcat_cons; assumption|].
+      cbn [flat_map]. eapply scan_seq_app; [|exact Hs]. cbn [scan_seq]. rewrite Hsx. rewrite app_nil_r. reflexivity. }
+  destruct Hact as [esA [HmA HscA]].
+  destruct (elt_list_shape sch _ _ _ _ _ HelC HwC) as [lc ->].
+  assert (He4 : (S (S (S (S e))) <= FUEL)%nat) by lia.
+  destruct (list_scan sch (S (S (S (S e)))) fC "changeset" "Changeset" lc (S (S (S (S e)))) (Some (eff_name sch fC, x_omitempty (f_xml fC)))
+              He4 (le_n _) HelC ltac:(discriminate) eq_refl HwC) as [esC [HmC HscC]].
+  exists (Elem "osm" [] (List.concat [esA; esC]) no_text). split.
+  - rewrite marshal_S. rewrite (ms_struct sch _ _ dD _ None None Hk Hmh). unfold marshal_struct.
+    unfold start_name. rewrite Hxn. cbn [String.eqb Ascii.eqb Bool.eqb negb rbind]. rewrite Hfs.
+    rewrite !ma_nonattr by (assumption || (cbn [all_supported forallb] in *; repeat match goal with E : _ && _ = true |- _ => apply andb_true_iff in E; destruct E end; assumption)).
+    cbn [marshal_attrs rbind]. rewrite !mc_elem by assumption. cbn [marshal_children].
+    rewrite HnA, HoA.
+    assert (HmA' : marshal sch (S (S (S (S e)))) (f_type fA) (VList la) (Some ("action", false)) None = Ok esA).
+    { rewrite marshal_S. rewrite (ms_slice sch _ (f_type fA) (TNamed "Action") la (Some ("action", false)) None HkA eq_refl HmhA). exact HmA. }
+    rewrite HmA'. cbn [rbind]. rewrite HmC. cbn [rbind List.concat]. rewrite !app_nil_r. reflexivity.
+  - rewrite (scan_el_container sch _ _ _ _ not_kind_osm). cbn [List.concat]. rewrite app_nil_r.
+    unfold diff_objects, fval. rewrite Hfs. cbn [fget_go]. rewrite Hdsc. cbn [String.eqb Ascii.eqb Bool.eqb andb].
+    match goal with E : f_name fC = "Changesets" |- _ => rewrite E end. cbn [String.eqb Ascii.eqb Bool.eqb andb].
+    eapply scan_seq_app; [exact HscA | exact HscC].
+Qed.
+
+Theorem scanner_diff : forall dD dA dO v,
+  lookup_type sch "OSM" = Some dO -> osm_top_static sch dO = true -> osm_static sch 11 dO = true ->
+  elems_static sch 11 dO = true -> scan_static sch 11 dO = true ->
+  lookup_type sch "Action" = Some dA -> action_static sch dA = true ->
+  lookup_type sch "Diff" = Some dD -> diff_static sch 11 dD = true -> diff_scan_static 11 dD = true ->
+  wf sch FUEL (TNamed "Diff") v = true ->
+  exists ex, encode1 sch "Diff" v = Ok ex /\ scan_el sch ex = (diff_objects dD dA dO v, None).
+Proof.
+  intros dD dA dO v H1 H2 H3 H4 H5 H6 H7 H8 H9 H10 Hwf.
+  assert (H16 : (S (S (S (S (S 11)))) <= FUEL)%nat) by (unfold FUEL; repeat constructor).
+  destruct (scanner_diff_k 11 dD dA dO v H16 H1 H2 H3 H4 H5 H6 H7 H8 H9 H10 Hwf) as [ex [He Hs]].
+  exists ex. split; [|exact Hs]. unfold encode1, encode. change FUEL with (S (S (S (S (S 11))))). rewrite He. reflexivity.
 Qed.
 
 End ScanContainers.
